@@ -12,6 +12,7 @@ func init() {
 	verifRegister("verifC19EvaluateCatchAll4", verifC19EvaluateCatchAll4)
 	verifRegister("verifC19Appliers", verifC19Appliers)
 	verifRegister("verifC19Construct", verifC19Construct)
+	verifRegister("verifC19Compile", verifC19Compile)
 }
 
 var verifLookupIP = net.IPv4(10, 1, 1, 1).To4()
@@ -272,6 +273,114 @@ func verifC19Construct() {
 		ips6, _, _, _ := m.findExternalIPs(CandidateTypeHost, "2001:db8::9", "")
 		for _, ip := range ips6 {
 			verifAssert(ip.To4() == nil, "ipv6-lookup-never-gets-an-ipv4-catch-all")
+		}
+	}
+	verifReach("done")
+}
+
+// End to end: rules given as the user writes them (External / Local / Networks /
+// Mode) compiled by the real newAddressRewriteMapper and looked up for an IPv4
+// and an IPv6 local address, against the documented meaning: a rule only ever
+// applies to the families its Networks allow, a catch-all to the family of its
+// external addresses (an empty one to every allowed family), a Local rule to
+// exactly that address; the first explicit match wins, else the first catch-all.
+type verifUserRule struct {
+	ext4, ext6 bool
+	local      int // 0 none, 1 = the IPv4 lookup address, 2 = the IPv6 lookup address
+	nets       int // 0 all, 1 IPv4 only, 2 IPv6 only
+	mode       AddressRewriteMode
+}
+
+var verifC19Lookups = []string{"10.1.1.1", "fd00::5"}
+
+func verifC19Compile() {
+	n := 2
+	shapes := make([]verifUserRule, n)
+	rules := make([]AddressRewriteRule, n)
+	exts := make([][]string, n)
+	for i := range shapes {
+		sh := verifUserRule{ext4: verifChoice(2) == 1, ext6: verifChoice(2) == 1, local: verifChoice(3), nets: verifChoice(3)}
+		sh.mode = AddressRewriteReplace
+		if i == 0 && verifChoice(2) == 1 {
+			sh.mode = AddressRewriteAppend
+		}
+		r := AddressRewriteRule{Mode: sh.mode}
+		if sh.ext4 {
+			exts[i] = append(exts[i], []string{"8.8.8.1", "8.8.8.2"}[i])
+		}
+		if sh.ext6 {
+			exts[i] = append(exts[i], []string{"2001:db8::1", "2001:db8::2"}[i])
+		}
+		r.External = exts[i]
+		if sh.local > 0 {
+			r.Local = verifC19Lookups[sh.local-1]
+		}
+		switch sh.nets {
+		case 1:
+			r.Networks = []NetworkType{NetworkTypeUDP4, NetworkTypeTCP4}
+		case 2:
+			r.Networks = []NetworkType{NetworkTypeUDP6}
+		}
+		shapes[i], rules[i] = sh, r
+	}
+	m, err := newAddressRewriteMapper(rules)
+	verifAssert(err == nil, "well-formed-rules-compile")
+	for fam, lookup := range verifC19Lookups { // fam 0: IPv4, 1: IPv6
+		allowed := func(sh verifUserRule, f int) bool { return sh.nets == 0 || sh.nets == f+1 }
+		wantMatched, wantMode := false, addressRewriteModeUnspecified
+		var want []string
+		// first explicit match
+		found := false
+		for i, sh := range shapes {
+			if sh.local == fam+1 && allowed(sh, fam) {
+				wantMatched, wantMode, want, found = true, sh.mode, exts[i], true
+				break
+			}
+		}
+		if !found {
+			for i, sh := range shapes {
+				if sh.local != 0 || !allowed(sh, fam) {
+					continue
+				}
+				// which externals does the rule contribute at all (own family allowed)?
+				add4, add6 := sh.ext4 && allowed(sh, 0), sh.ext6 && allowed(sh, 1)
+				mine := []bool{add4, add6}[fam]
+				switch {
+				case mine:
+					want = []string{[]string{"8.8.8.1", "8.8.8.2"}[i]}
+					if fam == 1 {
+						want = []string{[]string{"2001:db8::1", "2001:db8::2"}[i]}
+					}
+					wantMatched, wantMode, found = true, sh.mode, true
+				case !add4 && !add6: // empty rule: deny / no-op for every allowed family
+					want, wantMatched, wantMode, found = nil, true, sh.mode, true
+				}
+				if found {
+					break
+				}
+			}
+		}
+		var ips []net.IP
+		matched, mode := false, addressRewriteModeUnspecified
+		if m != nil {
+			var ferr error
+			ips, matched, mode, ferr = m.findExternalIPs(CandidateTypeHost, lookup, "")
+			verifAssert(ferr == nil, "lookup-succeeds")
+		}
+		verifAssert(matched == wantMatched, "a-rule-applies-only-to-its-address,family-and-networks")
+		if matched && wantMatched {
+			verifReach("matched")
+			verifAssert(mode == wantMode, "mode-of-the-winning-rule(end-to-end)")
+			ok := len(ips) == len(want)
+			for k := 0; ok && k < len(ips); k++ {
+				ok = ips[k].Equal(net.ParseIP(want[k]))
+			}
+			verifAssert(ok, "external-addresses-of-the-winning-rule(end-to-end)")
+			if len(want) == 0 {
+				verifReach("empty-rule")
+			}
+		} else if !wantMatched {
+			verifReach("unmatched")
 		}
 	}
 	verifReach("done")
